@@ -28,6 +28,11 @@ pub enum Expect {
     OkOrErrAtEnd,
     /// garbage at this offset: Err exactly there
     ErrAt(usize),
+    /// the stream is a sentence up to this offset and was mutated from there
+    /// on (a token replaced by another one, lost, written twice): the result
+    /// may be a sentence again; if it is not, the error must not be reported
+    /// *before* the offset
+    NotBefore(usize),
 }
 
 #[derive(Clone, Debug)]
@@ -52,6 +57,8 @@ fn kind_static(s: &str) -> &'static str {
         "G" => "G",
         "WT" => "WT",
         "WG" => "WG",
+        "M" => "M",
+        "WM" => "WM",
         _ => "?",
     }
 }
@@ -59,7 +66,7 @@ fn kind_static(s: &str) -> &'static str {
 impl Case {
     pub fn to_json(&self) -> Value {
         json!({"kind": "c12", "variant": self.kind, "parser": self.parser, "layout": self.layout, "input": self.input,
-            "expect": match &self.expect { Expect::Ok => json!("ok"), Expect::OkOrErrAtEnd => json!("ok-or-err-at-end"), Expect::ErrAt(p) => json!({"err_at": p}) },
+            "expect": match &self.expect { Expect::Ok => json!("ok"), Expect::OkOrErrAtEnd => json!("ok-or-err-at-end"), Expect::ErrAt(p) => json!({"err_at": p}), Expect::NotBefore(p) => json!({"not_before": p}) },
             "fault_pos": self.fault_pos, "reference": self.reference, "damage": self.damage})
     }
     pub fn from_json(v: &Value) -> Option<Case> {
@@ -71,6 +78,7 @@ impl Case {
             expect: match &v["expect"] {
                 Value::String(s) if s == "ok" => Expect::Ok,
                 Value::String(s) if s == "ok-or-err-at-end" => Expect::OkOrErrAtEnd,
+                o if o.get("not_before").is_some() => Expect::NotBefore(o.get("not_before")?.as_u64()? as usize),
                 o => Expect::ErrAt(o.get("err_at")?.as_u64()? as usize),
             },
             fault_pos: v["fault_pos"].as_u64()? as usize,
@@ -226,7 +234,7 @@ pub fn check(r: &Runner, case: &Case, st: &mut Stats) -> Verdict {
             },
             _ => Verdict::Inconclusive("not-delivered"),
         },
-        Expect::OkOrErrAtEnd | Expect::ErrAt(_) => {
+        Expect::OkOrErrAtEnd | Expect::ErrAt(_) | Expect::NotBefore(_) => {
             let reference = match run_text(r, &case.parser, &case.layout, &case.reference) {
                 Some(x) if matches!(x.out, Out::Ok { .. }) => x,
                 _ => return Verdict::Inconclusive("reference-not-ok"),
@@ -244,6 +252,14 @@ pub fn check(r: &Runner, case: &Case, st: &mut Stats) -> Verdict {
                         Verdict::Holds
                     } else {
                         Verdict::Violation { class: "wrong-error-position:T".into(), what: format!("the input is a proper prefix of a sentence ({} bytes) but the error is reported at offset {pos}, not at the end of input", case.input.len()) }
+                    }
+                }
+                (Expect::NotBefore(_), Out::Ok { .. }) => Verdict::Holds,
+                (Expect::NotBefore(f), Out::ParseErr { pos, .. }) => {
+                    if pos >= f {
+                        Verdict::Holds
+                    } else {
+                        Verdict::Violation { class: "error-before-first-offending-token:M".into(), what: format!("the stream is a sentence up to offset {f} (every token before it lexed as in the sentence) and was mutated from there on, but the error is reported at offset {pos}, before the first token that can be offending") }
                     }
                 }
                 (Expect::ErrAt(f), out) => {
@@ -388,6 +404,61 @@ pub fn cases_for(p: &dyn ParserCase, e: &Entry, sentence: &str, base: &RunOut, t
         for g in GARBAGE.iter().take(2) {
             let z = format!("{sentence}{g}");
             f(mk(z, "G", Expect::ErrAt(s), s, sentence, format!("U+{:04X} appended at the end (offset {s})", g.chars().next().unwrap() as u32)));
+        }
+    }
+    // M: a misdirected write -- a token is overwritten by the text of a token of
+    // another kind, lost, or written twice.  The result may be a sentence; if
+    // it is not, the first offending token cannot lie before the mutation.
+    if e.c12.contains('G') {
+        let mut rng = Rng::new(sub_seed(seed, 1212, fnv64(sentence.as_bytes()) ^ fnv64(p.id().as_bytes())));
+        for (i, l) in leaves.iter().enumerate().step_by(stride) {
+            let (s, en) = (l.start as usize, l.end as usize);
+            if en <= s || en > sentence.len() || !sentence.is_char_boundary(s) || !sentence.is_char_boundary(en) {
+                continue;
+            }
+            let next_start = leaves.get(i + 1).map(|n| n.start as usize).unwrap_or(sentence.len());
+            if next_start < en || !sentence.is_char_boundary(next_start) {
+                continue;
+            }
+            let mut others: Vec<&TokRec> = vec![];
+            for o in &leaves {
+                let (os, oe) = (o.start as usize, o.end as usize);
+                if o.kind != l.kind && oe > os && oe <= sentence.len() && sentence.is_char_boundary(os) && sentence.is_char_boundary(oe) && sentence[os..oe] != sentence[s..en] && !others.iter().any(|x| x.kind == o.kind) {
+                    others.push(o);
+                }
+            }
+            if !others.is_empty() {
+                let rot = rng.usize(others.len());
+                others.rotate_left(rot);
+            }
+            let mut texts: Vec<String> = others.iter().take(if thorough { 6 } else { 3 }).map(|o| sentence[o.start as usize..o.end as usize].to_string()).collect();
+            // ... and by words of the entry's other inputs (token kinds that do
+            // not occur in this sentence at all)
+            let mut words: Vec<String> = vec![];
+            for other in &e.sentences {
+                if let Ok(t) = std::str::from_utf8(&other.bytes) {
+                    for w in t.split_whitespace() {
+                        if w.len() <= 24 && w != &sentence[s..en] && !texts.iter().any(|x| x == w) && !words.iter().any(|x| x == w) && words.len() < 64 {
+                            words.push(w.to_string());
+                        }
+                    }
+                }
+            }
+            if !words.is_empty() {
+                let rot = rng.usize(words.len());
+                words.rotate_left(rot);
+                texts.extend(words.into_iter().take(if thorough { 6 } else { 3 }));
+            }
+            for text in &texts {
+                let z = format!("{}{}{}", &sentence[..s], text, &sentence[en..]);
+                f(mk(z, "M", Expect::NotBefore(s), s, sentence, format!("token {i} (offset {s}) overwritten by the text of another token ({:?})", text.chars().take(20).collect::<String>())));
+            }
+            if next_start < sentence.len() {
+                let z = format!("{}{}", &sentence[..s], &sentence[next_start..]);
+                f(mk(z, "M", Expect::NotBefore(s), s, sentence, format!("token {i} (offset {s}) and the gap that follows lost")));
+            }
+            let z = format!("{}{}{}", &sentence[..next_start], &sentence[s..next_start], &sentence[next_start..]);
+            f(mk(z, "M", Expect::NotBefore(next_start), next_start, sentence, format!("token {i} and the gap that follows written twice (second copy at offset {next_start})")));
         }
     }
     // W: benign whitespace variation inside existing gaps
@@ -539,7 +610,11 @@ fn run_item(r: &Runner, entries: &[Entry], item: &(usize, usize), thorough: bool
         let mut e2 = e.clone();
         e2.c12 = e.c12.replace('W', "");
         cases_for(p, &e2, &w, &wb, false, seed, &mut |mut c| {
-            c.kind = if c.kind == "T" { "WT" } else { "WG" };
+            c.kind = match c.kind {
+                "T" => "WT",
+                "M" => "WM",
+                _ => "WG",
+            };
             let v = check(r, &c, &mut st);
             record(&mut st, p, &c, &v, &mut viol, idx);
         });
